@@ -50,3 +50,170 @@ pub fn sx_to_item(s: &Sx) -> Option<Item> {
         _ => return None,
     })
 }
+
+// ---------------------------------------------------------------------------------------------
+// Whole PushState <-> sx (see coq/theories/Suites/SState.v)
+use pushr::push::configuration::PushConfiguration;
+use pushr::push::graph::Graph;
+use pushr::push::io::PushMessage;
+use pushr::push::stack::{PushPrint, PushStack};
+use pushr::push::state::PushState;
+use std::collections::HashMap;
+
+fn stack_to_sx<T: Clone + std::fmt::Display + PartialEq + PushPrint>(st: &PushStack<T>, f: impl Fn(&T) -> Sx) -> Sx {
+    let mut v = Vec::new();
+    for i in 0..st.size() {
+        v.push(f(st.get(i).unwrap()));
+    }
+    Sx::L(v)
+}
+
+fn msg_to_sx(m: &PushMessage) -> Sx {
+    Sx::L(vec![Sx::list(m.header.values.iter(), |z| Sx::z(*z)), Sx::list(m.body.values.iter(), |b| Sx::b(*b))])
+}
+
+/// Node ids are process-global; they are renamed in order of first occurrence while the state is
+/// written out (graphs oldest first; within a graph nodes sorted by id, edges by destination).
+pub struct IdMap {
+    pub to_canon: HashMap<usize, i128>,
+}
+impl IdMap {
+    pub fn new() -> Self { IdMap { to_canon: HashMap::new() } }
+    pub fn canon(&mut self, id: usize) -> i128 {
+        let n = self.to_canon.len() as i128 + 1;
+        *self.to_canon.entry(id).or_insert(n)
+    }
+}
+
+pub fn graph_to_sx(g: &Graph, ids: &mut IdMap) -> Sx {
+    let mut nodes: Vec<(usize, i32)> = g.nodes.iter().map(|(k, n)| (*k, n.get_state())).collect();
+    nodes.sort();
+    let ns: Vec<Sx> = nodes.iter().map(|(k, s)| Sx::L(vec![Sx::Z(ids.canon(*k)), Sx::z(*s)])).collect();
+    let mut dests: Vec<usize> = g.edges.keys().cloned().collect();
+    dests.sort();
+    let mut es = Vec::new();
+    for d in dests {
+        let inc: Vec<Sx> = g.edges[&d].iter().map(|e| Sx::L(vec![Sx::Z(ids.canon(e.get_origin_id())), f32_sx(e.get_weight())])).collect();
+        es.push(Sx::L(vec![Sx::Z(ids.canon(d)), Sx::L(inc)]));
+    }
+    Sx::L(vec![Sx::L(ns), Sx::L(es)])
+}
+
+pub fn state_to_sx(s: &PushState) -> Sx {
+    let mut ids = IdMap::new();
+    let mut binds: Vec<(&String, &Item)> = s.name_bindings.iter().collect();
+    binds.sort_by(|a, b| a.0.cmp(b.0));
+    let c = &s.configuration;
+    let graphs: Vec<Sx> = s.graph_stack.iter().map(|g| graph_to_sx(g, &mut ids)).collect();
+    Sx::L(vec![
+        stack_to_sx(&s.bool_stack, |b| Sx::b(*b)),
+        stack_to_sx(&s.code_stack, item_to_sx),
+        stack_to_sx(&s.exec_stack, item_to_sx),
+        stack_to_sx(&s.float_stack, |f| f32_sx(*f)),
+        stack_to_sx(&s.index_stack, |i| Sx::L(vec![Sx::u(i.current), Sx::u(i.destination)])),
+        stack_to_sx(&s.int_stack, |z| Sx::z(*z)),
+        stack_to_sx(&s.name_stack, |n| Sx::str(n)),
+        stack_to_sx(&s.bool_vector_stack, |v| Sx::list(v.values.iter(), |b| Sx::b(*b))),
+        stack_to_sx(&s.float_vector_stack, |v| Sx::list(v.values.iter(), |f| f32_sx(*f))),
+        stack_to_sx(&s.int_vector_stack, |v| Sx::list(v.values.iter(), |z| Sx::z(*z))),
+        Sx::L(s.input_stack.iter().map(msg_to_sx).collect()),
+        Sx::L(s.output_stack.iter().map(msg_to_sx).collect()),
+        Sx::L(graphs),
+        Sx::L(binds.iter().map(|(k, v)| Sx::L(vec![Sx::str(k), item_to_sx(v)])).collect()),
+        Sx::L(vec![
+            f32_sx(c.max_random_float), f32_sx(c.min_random_float), Sx::z(c.max_random_integer), Sx::z(c.min_random_integer),
+            Sx::z(c.eval_push_limit), Sx::Z(c.eval_time_limit as i128), Sx::u(c.growth_cap),
+            f32_sx(c.new_erc_name_probability), Sx::z(c.max_points_in_random_expressions), Sx::z(c.max_points_in_program),
+        ]),
+        Sx::b(s.quote_name),
+        Sx::b(s.send_name),
+    ])
+}
+
+fn fill<T: Clone + std::fmt::Display + PartialEq + PushPrint>(st: &mut PushStack<T>, l: &Sx, f: impl Fn(&Sx) -> Option<T>) -> Option<()> {
+    // wire order is top-first; push bottom first
+    for x in l.as_l()?.iter().rev() {
+        st.push(f(x)?);
+    }
+    Some(())
+}
+
+fn sx_to_msg(m: &Sx) -> Option<PushMessage> {
+    let m = m.as_l()?;
+    Some(PushMessage::new(
+        IntVector::new(m.get(0)?.as_l()?.iter().map(|z| z.as_i32()).collect::<Option<_>>()?),
+        BoolVector::new(m.get(1)?.as_l()?.iter().map(|b| b.as_bool()).collect::<Option<_>>()?),
+    ))
+}
+
+/// Builds a graph from its wire form; symbolic node ids are mapped to freshly created real ids.
+pub fn sx_to_graph(g: &Sx, real: &mut HashMap<i128, usize>) -> Option<Graph> {
+    let g = g.as_l()?;
+    let mut out = Graph::new();
+    for n in g.get(0)?.as_l()? {
+        let n = n.as_l()?;
+        let sym = n.get(0)?.as_z()?;
+        let st = n.get(1)?.as_i32()?;
+        match real.get(&sym) {
+            Some(id) => {
+                // the same node (same id) present in an earlier snapshot: clone it with that id
+                let mut tmp = Graph::new();
+                let nid = tmp.add_node(st);
+                let mut node = tmp.nodes.remove(&nid)?;
+                // Node has no public id setter: ids are only equal across snapshots made by cloning
+                let _ = &mut node;
+                let _ = id;
+                return None;
+            }
+            None => {
+                let id = out.add_node(st);
+                real.insert(sym, id);
+            }
+        }
+    }
+    for e in g.get(1)?.as_l()? {
+        let e = e.as_l()?;
+        let d = *real.get(&e.get(0)?.as_z()?)?;
+        for inc in e.get(1)?.as_l()? {
+            let inc = inc.as_l()?;
+            let o = *real.get(&inc.get(0)?.as_z()?)?;
+            out.add_edge(o, d, inc.get(1)?.as_f32()?);
+        }
+    }
+    Some(out)
+}
+
+pub fn sx_to_state(s: &Sx) -> Option<PushState> {
+    let l = s.as_l()?;
+    if l.len() != 17 { return None; }
+    let mut st = PushState::new();
+    fill(&mut st.bool_stack, &l[0], |x| x.as_bool())?;
+    fill(&mut st.code_stack, &l[1], sx_to_item)?;
+    fill(&mut st.exec_stack, &l[2], sx_to_item)?;
+    fill(&mut st.float_stack, &l[3], |x| x.as_f32())?;
+    fill(&mut st.index_stack, &l[4], |x| { let p = x.as_l()?; Some(Index { current: p.get(0)?.as_usize()?, destination: p.get(1)?.as_usize()? }) })?;
+    fill(&mut st.int_stack, &l[5], |x| x.as_i32())?;
+    fill(&mut st.name_stack, &l[6], |x| x.as_string())?;
+    fill(&mut st.bool_vector_stack, &l[7], |x| Some(BoolVector::new(x.as_l()?.iter().map(|b| b.as_bool()).collect::<Option<_>>()?)))?;
+    fill(&mut st.float_vector_stack, &l[8], |x| Some(FloatVector::new(x.as_l()?.iter().map(|b| b.as_f32()).collect::<Option<_>>()?)))?;
+    fill(&mut st.int_vector_stack, &l[9], |x| Some(IntVector::new(x.as_l()?.iter().map(|b| b.as_i32()).collect::<Option<_>>()?)))?;
+    for m in l[10].as_l()? { st.input_stack.push(sx_to_msg(m)?); }
+    for m in l[11].as_l()? { st.output_stack.push(sx_to_msg(m)?); }
+    let mut real: HashMap<i128, usize> = HashMap::new();
+    for g in l[12].as_l()? { st.graph_stack.push(sx_to_graph(g, &mut real)?); }
+    for b in l[13].as_l()? {
+        let b = b.as_l()?;
+        st.name_bindings.insert(b.get(0)?.as_string()?, sx_to_item(b.get(1)?)?);
+    }
+    let c = l[14].as_l()?;
+    if c.len() != 10 { return None; }
+    st.configuration = PushConfiguration {
+        max_random_float: c[0].as_f32()?, min_random_float: c[1].as_f32()?,
+        max_random_integer: c[2].as_i32()?, min_random_integer: c[3].as_i32()?,
+        eval_push_limit: c[4].as_i32()?, eval_time_limit: c[5].as_z()? as u64, growth_cap: c[6].as_usize()?,
+        new_erc_name_probability: c[7].as_f32()?, max_points_in_random_expressions: c[8].as_i32()?, max_points_in_program: c[9].as_i32()?,
+    };
+    st.quote_name = l[15].as_bool()?;
+    st.send_name = l[16].as_bool()?;
+    Some(st)
+}
